@@ -496,6 +496,49 @@ pub fn walk_chunks(file: &[u8]) -> Vec<ChunkSpan> {
     out
 }
 
+fn wants_foreign_metadata(w: &Workload) -> bool {
+    match w {
+        Workload::Dom { tree } => (tree.props.len() + tree.children.len() + tree.name.len()) % 3 == 0,
+        _ => false,
+    }
+}
+
+/// Inserts a META chunk before the first chunk (binary) or <Meta>/<External>
+/// elements after the root start tag (XML). Returns None if the file has no
+/// such place.
+fn with_foreign_metadata(format: Format, file: &[u8]) -> Option<Vec<u8>> {
+    if format.is_bin() {
+        if file.len() < 32 {
+            return None;
+        }
+        let mut payload = Vec::new();
+        payload.extend_from_slice(&2u32.to_le_bytes());
+        for (k, v) in [("ExplicitAutoJoints", "true"), ("VerifNote", "")] {
+            payload.extend_from_slice(&(k.len() as u32).to_le_bytes());
+            payload.extend_from_slice(k.as_bytes());
+            payload.extend_from_slice(&(v.len() as u32).to_le_bytes());
+            payload.extend_from_slice(v.as_bytes());
+        }
+        let mut out = file[..32].to_vec();
+        out.extend_from_slice(b"META");
+        out.extend_from_slice(&0u32.to_le_bytes());
+        out.extend_from_slice(&(payload.len() as u32).to_le_bytes());
+        out.extend_from_slice(&0u32.to_le_bytes());
+        out.extend_from_slice(&payload);
+        out.extend_from_slice(&file[32..]);
+        Some(out)
+    } else if format.is_xml() {
+        let tags = scan_xml_tags(file);
+        let root = tags.iter().find(|t| !t.closing && t.name == "roblox")?;
+        let mut out = file[..root.end].to_vec();
+        out.extend_from_slice(b"<Meta name=\"ExplicitAutoJoints\">true</Meta><External>null</External><External>nil</External>");
+        out.extend_from_slice(&file[root.end..]);
+        Some(out)
+    } else {
+        None
+    }
+}
+
 /// Length up to which a prefix is "truncated" in the property's sense: the end
 /// of the END chunk (binary) or of the closing tag (XML). Bytes after that
 /// (trailing whitespace, padding) carry no content, so a prefix that keeps the
@@ -1570,6 +1613,22 @@ impl IoSim {
         ctx.log.bytes(&file);
         ctx.count(&format!("format:{}", format.tag()));
         let generated_valid = src.is_some();
+        // Read-side scenarios sometimes use the file as another conformant writer
+        // (Roblox itself) would have produced it: with the metadata structures
+        // that rbx-dom's own writers never emit (META chunk; <Meta> / <External>
+        // elements). Write-side scenarios keep comparing with the encoder's bytes.
+        let read_side = matches!(t.scenario, Scenario::Prefixes { .. } | Scenario::Delivery { .. } | Scenario::ReadErr { .. } | Scenario::Damage { .. });
+        let file = if read_side && generated_valid && wants_foreign_metadata(&t.workload) {
+            match with_foreign_metadata(format, &file) {
+                Some(f) => {
+                    ctx.count("files_with_foreign_metadata_structures");
+                    f
+                }
+                None => file,
+            }
+        } else {
+            file
+        };
 
         match &t.scenario {
             Scenario::Prefixes { only, stride } => {
@@ -2005,6 +2064,33 @@ impl Engine for IoSim {
         } else {
             Workload::Dom { tree: self.gen_tree(&mut r, small) }
         };
+        if format.is_bin() && r.chance(1, 40) {
+            // A file as an older writer would have produced it: legacy and alias
+            // property names on a class the database knows. Built under a
+            // made-up class name (so the serializer writes the names verbatim),
+            // then the INST chunk is renamed to the real class.
+            let legacy = |name: &str, ty: &str, r: &mut Rng| (name.to_string(), ValSpec::G { ty: ty.to_string(), s: r.below(1 << 20) });
+            let (real_class, props): (u8, Vec<(String, ValSpec)>) = if r.chance(1, 2) {
+                (0, vec![legacy("BrickColor", "BrickColor", &mut r), legacy("size", "Vector3", &mut r), legacy("Color3uint8", "Color3uint8", &mut r), legacy("formFactorRaw", "Enum", &mut r), legacy("Anchored", "Bool", &mut r)])
+            } else {
+                (2, vec![legacy("Font", "Enum", &mut r), legacy("Text", "String", &mut r), legacy("TextColor", "BrickColor", &mut r), legacy("FontSize", "Enum", &mut r)])
+            };
+            let n = r.range(1, 3) as usize;
+            let mut picked: Vec<(String, ValSpec)> = Vec::new();
+            for p in props {
+                if r.chance(2, 3) {
+                    picked.push(p);
+                }
+            }
+            let children: Vec<NodeSpec> = (1..n).map(|i| NodeSpec { class: "VerifLegacy".into(), name: format!("l{}", i), props: picked.clone(), children: vec![] }).collect();
+            let tree = NodeSpec { class: "VerifLegacy".into(), name: "legacy".into(), props: picked, children };
+            let mut edits = vec![Edit::InstRename { which: 0, class: real_class }];
+            if r.chance(1, 2) {
+                edits.push(self.gen_edit(&mut r, Format::BinNone));
+            }
+            let t = IoTrace { format: Format::BinNone, workload: Workload::Dom { tree }, scenario: Scenario::Damage { edits, plan: self.gen_read_plan(&mut r) } };
+            return serde_json::to_value(&t).unwrap();
+        }
         let scenario = match kind {
             0 => Scenario::Prefixes { only: None, stride: if thorough || r.chance(3, 4) { 1 } else { r.range(3, 17) as u32 } },
             1 => Scenario::Delivery { plan: self.gen_read_plan(&mut r) },
